@@ -76,6 +76,8 @@ int g_host_depth_export = 0;
 
 static std::vector<void(*)()>& resetHooks() { static std::vector<void(*)()> v; return v; }
 void addResetHook(void (*fn)()) { resetHooks().push_back(fn); }
+static std::vector<void(*)()>& endHooks() { static std::vector<void(*)()> v; return v; }
+void addEndHook(void (*fn)()) { endHooks().push_back(fn); }
 
 // ------------------------------------------------------------------ prng
 static inline uint64_t rotl(uint64_t x, int k) { return (x << k) | (x >> (64 - k)); }
@@ -161,6 +163,7 @@ bool isBlocked(int id) { return id >= 1 && id <= g.ntasks && g.t[id].state == 2;
 bool taskFinished(int id) { return g.t[id].state == 3 || g.t[id].state == 0; }
 const char* blockedWhat(int id) { return g.t[id].what ? g.t[id].what : ""; }
 const void* blockedObj(int id) { return g.t[id].obj; }
+int64_t blockedDeadline(int id) { return (id >= 1 && id <= g.ntasks && g.t[id].state == 2) ? g.t[id].deadline : -1; }
 void setTaskNote(const char* n) { if (g.cur) { strncpy(g.t[g.cur].note, n, 63); g.t[g.cur].note[63] = 0; } }
 const char* taskNote(int id) { return g.t[id].note; }
 bool failed() { return g.res && g.res->violated; }
@@ -469,6 +472,7 @@ Result run(const RunSpec& spec, const Config& cfg, const Hooks& hooks) {
   switchTo(mainId);
   // back on host
   g.cur = 0; g_host_depth_export = 0;
+  for (auto fn : endHooks()) fn();
   bool allDone = true;
   for (int i = 1; i <= g.ntasks; ++i) if (g.t[i].state == 1 || g.t[i].state == 2) allDone = false;
   if (!res.violated && g.quiesced && !allDone) {
